@@ -117,6 +117,14 @@ def consumer_facts(prog, repo, which='pipe'):
             out['recv'] = 'timeout'
         elif re.search(r'Receiver::<[^>]*>::try_recv\(', t):
             out['recv'] = 'nonblocking'
+    # a timeout given as a named constant: read the constant's initialiser from the dump
+    for t in list(calls):
+        for nm in re.findall(r'const (?:[\w:]+::)?([A-Z][A-Z0-9_]*)\b', t):
+            for n, f in prog.functions.items():
+                if getattr(f, 'kind', '') == 'const' and (n == nm or n.endswith('::' + nm)):
+                    f.parse()
+                    txt = txt + [(b.term.text or '') for b in f.blocks.values() if not b.cleanup] + \
+                        [(st.text or '') for b in f.blocks.values() if not b.cleanup for st in b.stmts]
     out['timeout_ms'] = _duration_ms(txt)
     if out['recv'] == 'none':
         raise Unsupported('MIRBMC: the consumer does not receive through Receiver::recv / recv_timeout / try_recv')
